@@ -38,6 +38,13 @@ type PredSpec struct {
 	ParamTy map[string]string `json:"param_ty"` // Go param name -> Lean type
 	RetTy   map[string]string `json:"ret_ty"`   // method -> Lean return type (default Bool)
 	ConstNS string            `json:"const_ns"` // namespace for same-package constants
+	// ErrAsBool lists methods returning `error` that are translated to Bool:
+	// `return nil` ↦ true, `return fmt.Errorf(…)` / `errors.New(…)` ↦ false.
+	ErrAsBool []string `json:"err_as_bool"`
+	// ForceNow lists methods that get the `(now : Nat)` clock parameter even if their current body does not
+	// read the clock, so that a model calling them keeps compiling when a time check is dropped from the source
+	// (the correspondence run then shows the difference instead of a build failure).
+	ForceNow []string `json:"force_now"`
 }
 
 type SkelSpec struct {
@@ -323,6 +330,7 @@ type predCtx struct {
 	recv    string // receiver variable name
 	locals  map[string]bool
 	methods map[string]bool
+	errBool bool // current method returns error, translated to Bool
 }
 
 func (c *predCtx) expr(e ast.Expr) string {
@@ -408,6 +416,9 @@ func (c *predCtx) expr(e ast.Expr) string {
 			// time.Now().After(x)  -> (now > x) ; time.Now().Before(x) -> (now < x)
 			if inner, ok := sel.X.(*ast.CallExpr); ok {
 				if is, ok := inner.Fun.(*ast.SelectorExpr); ok {
+					if pk, ok := is.X.(*ast.Ident); ok && pk.Name == "time" && is.Sel.Name == "Now" && len(e.Args) == 0 && sel.Sel.Name == "Unix" {
+						return "now" // time.Now().Unix(): the clock parameter, in seconds
+					}
 					if pk, ok := is.X.(*ast.Ident); ok && pk.Name == "time" && is.Sel.Name == "Now" && len(e.Args) == 1 {
 						a := c.expr(e.Args[0])
 						switch sel.Sel.Name {
@@ -458,6 +469,11 @@ func (c *predCtx) expr(e ast.Expr) string {
 var usesNowMemo = map[string]bool{}
 
 func (c *predCtx) usesNow(method string) bool {
+	for _, f := range c.spec.ForceNow {
+		if f == method {
+			return true
+		}
+	}
 	key := c.spec.NS + "." + method
 	if v, ok := usesNowMemo[key]; ok {
 		return v
@@ -535,6 +551,17 @@ func (c *predCtx) stmts(list []ast.Stmt, indent string) string {
 		if len(s.Results) != 1 {
 			die("pred %s: return with %d results", c.spec.NS, len(s.Results))
 		}
+		if c.errBool {
+			if id, ok := s.Results[0].(*ast.Ident); ok && id.Name == "nil" {
+				return indent + "true"
+			}
+			if ce, ok := s.Results[0].(*ast.CallExpr); ok {
+				if f := selStr(ce.Fun); f == "fmt.Errorf" || f == "errors.New" {
+					return indent + "false"
+				}
+			}
+			die("pred %s: unsupported error result %s", c.spec.NS, exprStr(s.Results[0]))
+		}
 		return indent + c.expr(s.Results[0])
 	case *ast.IfStmt:
 		if s.Init != nil {
@@ -592,6 +619,11 @@ func genPred(root string, ps *PredSpec, out *strings.Builder) {
 	fmt.Fprintf(out, "namespace %s\n", ps.NS)
 	for _, m := range ps.Methods {
 		c := &predCtx{p: p, spec: ps, locals: map[string]bool{}, methods: ms}
+		for _, eb := range ps.ErrAsBool {
+			if eb == m {
+				c.errBool = true
+			}
+		}
 		fd := c.lookup(m)
 		params := []string{}
 		if fd.Recv != nil && len(fd.Recv.List[0].Names) == 1 {
